@@ -3094,7 +3094,8 @@ static void MakeCode_M16(void) {
     int z;
 
     DOpSize = AttrPartOpSize;
-    for (z = 1; z <= ArgCnt; OpSize[z++] = eSymbolSizeUnknown)
+    for (z = 1; (z <= ArgCnt) && (z < (int)(sizeof(OpSize) / sizeof(*OpSize)));
+         OpSize[z++] = eSymbolSizeUnknown)
         ;
 
     /* zu ignorierendes */
